@@ -168,8 +168,37 @@ fn arb_integer_near_midpoint() -> BoxedStrategy<String> {
 		.boxed()
 }
 
+/// A finite double (specials or random bits) spelled exactly - shortest digits, 17 digits or its full
+/// decimal expansion - and then respelled exactly in an arbitrary way (point position, exponent, zeros).
+pub fn arb_respelled_double() -> BoxedStrategy<String> {
+	let special = prop::sample::select(vec![
+		f64::MAX, f64::MIN_POSITIVE, 5e-324, 1.0, 0.1, 9007199254740992.0, 9007199254740994.0, 18446744073709551616.0, 9223372036854775808.0, 1e21, 1e22, 1e23, 1e-6, 1e-7, 123456789.0, 0.3, 1.5e300, 2.2250738585072009e-308, 4294967296.0, 1e15, 1e16, 1e17,
+	]);
+	let f = prop_oneof![3 => special, 2 => any::<u64>().prop_map(|b| {
+		let e = (b >> 52) & 0x7ff;
+		let e = if e == 0x7ff { 0x7fe } else { e };
+		f64::from_bits((b & 0x000f_ffff_ffff_ffff) | (e << 52))
+	})];
+	(f, 0u8..3, any::<bool>(), proptest::collection::vec(any::<u8>(), 8))
+		.prop_map(|(f, style, neg, ch)| {
+			let base = match style {
+				0 => format!("{:e}", f),
+				1 => format!("{:.16e}", f),
+				_ => {
+					let d = Dec::from_f64(f);
+					// the full expansion is at most ~770 digits; keep it only when it is a reasonable literal
+					if d.digits.len() <= 400 { d.to_sci() } else { format!("{:e}", f) }
+				}
+			};
+			let s = super::c10::respell(&base, &mut gen::Chooser::new(&ch));
+			if neg { format!("-{s}") } else { s }
+		})
+		.boxed()
+}
+
 pub fn arb_ijson_number(max_digits: usize) -> BoxedStrategy<String> {
 	prop_oneof![
+		2 => arb_respelled_double(),
 		2 => arb_integer_near_midpoint(),
 		3 => (any::<i32>()).prop_map(|i| i.to_string()),
 		3 => arb_scaled(6),
